@@ -109,7 +109,7 @@ def impl_resilient(case):
     ev = []
     res = {}
     try:
-        reader = mciipm.IpmReader(in_stream(f), encoding=case['codec'], blocked=case['blocked'])
+        reader = mciipm.IpmReader(in_stream(f, case['blocked']), encoding=case['codec'], blocked=case['blocked'])
         for _ in range(len(f) // 4 + 8):
             try:
                 ev.append('R' + (iu.dict_text(next(reader)) or '~'))
@@ -170,7 +170,7 @@ def impl(case):
     recs = []
     res = {}
     try:
-        reader = mciipm.IpmReader(in_stream(f), encoding=case['codec'], blocked=case['blocked'])
+        reader = mciipm.IpmReader(in_stream(f, case['blocked']), encoding=case['codec'], blocked=case['blocked'])
         style = case.get('style', 'loop')
         if style == 'next-then-loop':          # read a header record with next(), then loop over the rest
             try:
